@@ -1,4 +1,6 @@
 """C10 — template conflict resolution: import precedence, then priority, then last.
+(state after the repairs of K2, K-new-1/K-new-3 and K-new-2 in Stylesheet.cpp: only K1 is a known finding; the
+ k2/k3/k4 streams and corpus cases remain as regression inputs for the repaired defects)
 
 Legs:
   proof          coq/Properties_C10.v over coq/TmplDefs.v (+ coq/GenTmpl.v regenerated from XPath.cpp /
@@ -85,7 +87,7 @@ def gen_step(r, allow_fn=True):
 
 def gen_alt(r, k2=False):
     """one alternative, possibly with a predicate and/or leading steps"""
-    if k2 and r.random() < 0.5:
+    if r.random() < (0.5 if k2 else 0.04):
         return alt("key('k','v')", "fn", k2=True)
     a = gen_step(r)
     if a["kind"] in ("root", "fn") or r.random() < 0.55:
@@ -131,10 +133,7 @@ def target_tokens(a, facts):
     tn = ("N%d" % NAME_ID[a["name"]]) if n == "name" else TN[n]
     tt = {"axis": "a" if a["attr"] else "e", "eOther": "o", "eAny": "y", "eElement": "e", "eAttribute": "a"}[t]
     sc = facts["multi"] if a["multi"] else s
-    # run-time score (XPath::stepPattern): several steps or a positional predicate -> eMatchScoreOther,
-    # otherwise the score of the node test; '/' and id()/key() -> eMatchScoreOther
-    rsc = "ScOther" if (a["steps"] or a["pred"] == "pos" or a["kind"] in ("root", "fn")) else s
-    return "%s %s %d %d" % (tn, tt, SC[sc], SC[rsc])
+    return "%s %s %d" % (tn, tt, SC[sc])
 
 
 # ---------------------------------------------------------------------------------------------
@@ -153,13 +152,12 @@ def gen_template(r, tid, k1=False, k2=False, pool=None, k3=False, k4=False):
         else:
             alts = [gen_alt(r, k2) for _ in range(n_alt)]
         uniform = len({spec_default_priority(x) for x in alts}) == 1
-        rt_ok = not any(x["pred"] == "bool" and not x["steps"] for x in alts)
-        if explicit or ((uniform or k1) and (rt_ok or k4)):
+        if explicit or uniform or k1:
             break
         n_alt = 1
     if pool is not None:
         pool.append(alts)
-    if k3 and r.random() < 0.6:
+    if r.random() < (0.6 if k3 else 0.05):
         alts = [r.choice([alt("p:a", "name", False, "a"), alt("p:*", "nswild"), alt("@p:x", "name", True, "x"), alt("p:b", "name", False, "b")])]
         return {"id": tid, "alts": alts, "mode": r.choice([None, None, "m1"]), "prio": r.choice([None, None, 0, 500]),
                 "ai": r.random() < 0.3, "rebind": r.random() < 0.5}
@@ -456,8 +454,8 @@ def model_line(case, facts, queries):
     def item_tok(it):
         if "incl" in it:
             return "I %d %s" % (len(it["incl"]), " ".join(item_tok(x) for x in it["incl"]))
-        return "T %d %s %s %d %d %s" % (it["id"], MODE_ID[it["mode"]], "-" if it["prio"] is None else str(it["prio"]),
-                                         it["text_id"], len(it["alts"]),
+        return "T %d %s %s %d %s" % (it["id"], MODE_ID[it["mode"]], "-" if it["prio"] is None else str(it["prio"]),
+                                      len(it["alts"]),
                                          " ".join("%d %s" % (a["pid"], target_tokens(a, facts)) for a in it["alts"]))
 
     def sheet_tok(s):
@@ -636,7 +634,7 @@ def evaluate(ctx, cases, model_exe, facts, exes=None):
                 orc.append({"case": c, "what": "non-quiet run: " + err, "known": None, "nq": True})
         # oracle A: section 5.5 against the library (quiet path, XalanTransformer)
         och = oracle_chooser(c)
-        k1, k2, k3, k4 = has_k1(c), has_k2(c), has_k3(c), has_k4(c)
+        k1 = has_k1(c)
         nontrivial = 0
         for i in range(len(nodes)):
             for mi, m in enumerate(MODES):
@@ -652,7 +650,7 @@ def evaluate(ctx, cases, model_exe, facts, exes=None):
                     orc.append({"case": c, "node": i, "mode": m, "want": want, "got": got,
                                 "what": "node #%d (%s %s) mode %s: output %r, section 5.5 gives %r" % (
                                     i, nodes[i]["kind"], nodes[i]["lname"], m, got, want),
-                                "known": "K1" if k1 else "K2" if k2 else None})
+                                "known": "K1" if k1 else None})
                 # oracle B: conflict reporting must not change the choice (library against itself)
                 if obs_nq is not None:
                     gq = obs_nq[i * len(MODES) + mi]
@@ -660,7 +658,7 @@ def evaluate(ctx, cases, model_exe, facts, exes=None):
                         orc.append({"case": c, "node": i, "mode": m, "want": got, "got": gq, "nq": True,
                                     "what": "node #%d (%s %s) mode %s: with conflict reporting on the output is %r, without it %r" % (
                                         i, nodes[i]["kind"], nodes[i]["lname"], m, gq, got),
-                                    "known": "K-new-1" if k1 else "K-new-2" if k3 else "K-new-3" if k4 else None})
+                                    "known": None})
         ctx.cov["distinct_nontrivial"] += nontrivial
         # correspondence
         if model_exe:
